@@ -59,7 +59,10 @@ CHECKS = {
          "text": "call_eval proves the evaluation loop equals MvPolynomial.eval for every polynomial; call_staged (Mathlib's "
                  "bind1/eval) gives staged = at-once; call_unknown_keyword/call_double/call_binds cover the TypeError logic; "
                  "call_array_is_bind1: every position (i, j) of the executable array-level call is Mathlib's bind1 of the "
-                 "parameters' elements at j into element i. "
+                 "parameters' elements at j into element i; call_outcomes / call_returns_values / call_array_iff_constant / "
+                 "call_returns_substitution: the complete call of the model (callArr) raises ValueError iff the argument shapes do "
+                 "not broadcast and nothing else, has shape poly.shape + broadcast(argument shapes), returns a plain array exactly "
+                 "when every substituted element is constant, and every position is the bind1 substitution. "
                  "The array-level model (broadcast argument shapes, outer product, collapse to a plain array iff constant, "
                  "substitution) is run against the implementation, each numeric argument re-sent as every exact Python/numpy "
                  "carrier type.",
@@ -68,7 +71,9 @@ CHECKS = {
          "text": "clean_den, dropZeroCols_rows/_all_zero, dropUnusedNames_names, fromAttributes_rejects_* and regenerate_attrs "
                  "characterise what polynomial_from_attributes keeps, rejects and denotes for all inputs; fromAttributes_iff is "
                  "the exact success condition and result, fromAttributes_wellformed / _denotes: whatever it returns is "
-                 "well-formed and denotes the terms passed in; regenerate_wellformed: no side condition. Attribute triples "
+                 "well-formed and denotes the terms passed in; regenerate_wellformed: no side condition; closed_arith / "
+                 "closed_calculus / closed_arrays / closed_select: every operation of the model preserves the invariant (the "
+                 "induction step of 'every returned polynomial is well-formed'). Attribute triples "
                  "(redundant, unsorted, malformed) x all retain flags are compared with the Lean constructor at "
                  "representation level, and every polynomial returned by the ~95-entry operation catalogue is checked for the "
                  "invariant and rebuilt from attributes / raw view / todict.",
@@ -132,7 +137,8 @@ CHECKS = {
                  "when the divisor element is zero or no term of the remainder is divisible by the leading term; zero_divisor; "
                  "fuel_mono. divmod_terminates / divmod_total: enough fuel always exists - the candidate term strictly decreases in "
                  "the lexsort monomial order, which is well-founded on rows of one length (lexLt_wf), so quotient and remainder "
-                 "exist for every dividend/divisor element. The implementation's loop is observed through a wrapper of "
+                 "exist for every dividend/divisor element; divmod_array_shape / _identity / _terminates / _zero_divisor lift all of "
+                 "it to arrays with broadcasting (divmodArr is what the driver runs). The implementation's loop is observed through a wrapper of "
                  "get_division_candidate (repeated state / 400 iterations = non-termination). q and r are compared element by "
                  "element with the Lean division; identity, exact multiples, constant divisors, degrees and the operator "
                  "spellings are checked with exact dictionary arithmetic.",
